@@ -25,6 +25,8 @@ def main():
     seed = int(os.environ.get("VERIF_SEED", "0") or 0)
     from symx import runner
     from symx import known
+    import logging
+    logging.disable(logging.CRITICAL)
     mod = importlib.import_module("checks." + cid.lower())
     hs = mod.harnesses(a.tier)
     if a.only:
